@@ -149,6 +149,7 @@ struct Env {
                 res->obs.add(h);
                 res->ev.add(h);
                 res->obs_trace.push_back(h);
+                res->obs_tags.push_back(tag);
         }
         void obs_bytes(uint32_t tag, const void *p, size_t n) { obs(tag, hash_bytes(p, n)); }
         void ev(uint64_t v) { res->ev.add(v); } // schedule-level event (not an observable)
